@@ -28,6 +28,8 @@ func C16(c *core.Ctx) {
 	c16Sharing(c)
 	c16CLI(c)
 	c16HeaderOptionLast(c)
+	c16Flags(c)
+	c16MapsKeptWhole(c)
 	deadRulesAfterSkip(c, "C16-R8", "no validation rule is written after an unconditional validation.Skip (the correction requirements of regimes and addons included)")
 }
 
